@@ -654,6 +654,10 @@ func famForward(g *sgen, i int) J {
 		}
 		if g.r.chance(35) && k != ownedAt {
 			next = deepCopy(doc) // embedded
+		} else if g.r.chance(25) {
+			// the link sits behind a sibling that cannot be fetched (gone / not JSON / unknown type): that sibling is
+			// skipped, the link is still followed
+			next = []interface{}{g.r.pick([]string{remote("/gone"), remote("/garbage"), remote("/unknown")}), id}
 		} else {
 			next = id
 		}
